@@ -506,6 +506,19 @@ func (ex *Exec) nextChunk(fr *Frame, site ssa.Instruction, st *decoderState) (Va
 		}
 		panic(unsupported("VerifReadAll result"))
 	}
+	if p, ok := st.src.v.(*Value); ok && p != nil {
+		if c := ex.hctxGet(p, "content"); c != nil {
+			ex.hctxSet(p, "content", nil)
+			if bs, ok := c.(ByteStr); ok {
+				return bs.s, Iface{}
+			}
+			if sl, ok := c.(Slice); ok && sl.n == 0 {
+				return mkStr(""), Iface{}
+			}
+		}
+		g := ex.eng.lookupGlobal("io", "EOF")
+		return mkStr(""), (*ex.globalAddr(g)).(Iface)
+	}
 	panic(unsupported("reader " + st.src.t.String() + " has neither VerifNextChunk nor VerifReadAll"))
 }
 
